@@ -482,16 +482,22 @@ class BatcherWorld:
             started = loop.create_future()
             left = [sum(1 for C in base_calls if C.spec.get('after') is None)]
 
-            def start(C):
-                tasks.append(loop.create_task(self.caller(C)))
-                left[0] -= 1
+            def start(group):
+                # one timer per instant: simultaneous arrivals happen in program order (timers with equal deadlines have
+                # no defined order among themselves, and which order they get depends on unrelated timers)
+                for C in group:
+                    tasks.append(loop.create_task(self.caller(C)))
+                    left[0] -= 1
                 if left[0] == 0 and not started.done():
                     started.set_result(None)
+            groups = {}
             for C in base_calls:
                 if C.spec.get('after') is not None:
                     tasks.append(loop.create_task(self.caller_after(C, base_calls[C.spec['after']])))
                 else:
-                    loop.call_at(C.at, start, C)
+                    groups.setdefault(C.at, []).append(C)
+            for at in sorted(groups):
+                loop.call_at(at, start, groups[at])
             if left[0]:
                 await started
             base_calls = []
